@@ -171,7 +171,14 @@ fn verify(qr: &fast_qr::QRCode, bc: &BuildCase, what: &str, obs: &mut Obs) -> Re
     if let Some(p) = &own {
         // the FIRST mode indicator of the data stream is what a reader sees as the symbol's mode; a symbol that starts
         // with another indicator (also one that goes on with further segments) does not carry the reported mode
-        if !p.segments.is_empty() {
+        // ... and every symbol starts with one, also the symbol of the empty input (indicator + count 0)
+        ensure!(
+            !p.segments.is_empty(),
+            "no_mode_indicator",
+            "reported mode {} but the data stream starts with the terminator: no mode indicator at all (v{} {} mask {}; {:?})",
+            r_mode.name(), r_version, r_level.name(), r_mask, bc
+        );
+        {
             ensure!(
                 p.segments[0].mode == r_mode,
                 "mode_field",
